@@ -24,7 +24,7 @@ claim("C07", "R11,R12,R31,R36", "must-assign typestate of the encoding tag in Po
       "Decides that a reused postings list / iterator starts from a fully reset state except tabled buffers that are cleaned, and that a decoded list's encoding tag is defined; that every freq/norm record reader (read and skip forms) consumes the norm word exactly when the decoded frequency is non-zero (R36). Does not decide cursor lock-step under Next/Advance.", TB, "DESIGN.md §3 R11 R12, §4 C07")
 claim("C08", "R11,R32,R28", "must-assign typestate over go/ssa: tag field stored on every successful path of read, or every caller decodes into a fresh object",
       "Decides that the scratch list reused by the dictionary iterator cannot keep a stale 1-hit tag (the mechanism the property's counts depend on). Does not decide automaton/range filtering or ordering.", TB, "DESIGN.md §3 R11, §4 C08")
-claim("C10", "R10,R1", "field-coverage effect analysis of Reset/Set/newWithChunkMode for every pooled builder struct, slice re-extension classification, dominance of Put by successful reset, global-write effect summary over the call graph, pool ownership typestate",
+claim("C10", "R10,R1,R37", "field-coverage effect analysis of Reset/Set/newWithChunkMode for every pooled builder struct, slice re-extension classification, dominance of Put by successful reset, global-write effect summary over the call graph, pool ownership typestate",
       "Decides that every field of the pooled builder state has a re-initialisation point, truncated slices are not re-extended over stale elements, the builder returns to the pool only after a successful reset, and the build path writes no package-level state. Does not decide 're-initialised before first read on every path'.", TB, "DESIGN.md §3 R10 R1, §4 C10")
 claim("C11", "R1,R2,R3,R4,R5", "put-count typestate with bottom-up callee summaries (pool ownership) + must-hold lockset analysis with caller-propagated requirements + atomic-only field check over go/ssa",
       "Decides single ownership of pooled scratch contexts, that tabled shared fields are only accessed under their mutex, and that the section registry is written only at init. Does not prove data-race freedom.", TB, "DESIGN.md §3 R1 R2, §4 C11")
